@@ -22,6 +22,7 @@ def run(repo, report, tier):
     report.rule("C10.R6", "a step 'sees exactly the output of the preceding steps': the modifiers that act on the read alone (-u/-U, -q, --nextseq-trim, --poly-a, --trim-n, --length, --length-tag, --strip-suffix, --zero-cap) do not consult the per-read bookkeeping (info) to decide whether or how to act",
                 "a modifier skips reads depending on what an earlier step recorded (e.g. --length-tag keeps a stale length when no adapter matched)")
     report.guard("C10.R6", "read-only modifiers", r6_info_independent, repo, report)
+    report.guard("C10.R7", "slice bounds of the cutting steps", r7_no_wraparound, repo, report)
 
 
 def r3_sequential(repo, report):
@@ -137,6 +138,43 @@ def r6_info_independent(repo, report):
                   expected="no attribute of the ModificationInfo is read (recording what was cut, e.g. info.cut_prefix = ..., is fine)",
                   why="" if ok else f"{cname} consults {(reads + passed + tested)[0]}: whether or how it acts depends on an earlier step's bookkeeping, not on the read it receives")
     report.floor("C10.R6", "read-only modifiers", n, 9)
+
+
+def r7_no_wraparound(repo, report):
+    """A step that removes bases hands  read[a:b]  to the next step. A bound computed as  len(read) + k  /  len(read) - k  turns
+    negative on a read shorter than k - which an earlier step can produce - and a negative bound counts from the other end:
+    the slice then keeps bases the step documents to remove. The bounds in use are configured numbers used directly (a
+    slice clamps them itself) and indices returned by the trimming functions; arithmetic on the length must be clamped."""
+    from ..repo import expand
+    n = 0
+    for cname in _READ_ONLY_MODIFIERS:
+        cls = repo.classes.get(cname) if hasattr(repo, "classes") else None
+        if cls is None or "__call__" not in cls.methods:
+            continue
+        fn = cls.methods["__call__"]
+        ps = params(fn)
+        rec = ps[1] if len(ps) > 1 else None
+        bases = {rec, f"{rec}.sequence", f"{rec}.qualities"}
+        bad = []
+        k = 0
+        for sub in ast.walk(fn):
+            if not (isinstance(sub, ast.Subscript) and isinstance(sub.slice, ast.Slice) and src(sub.value) in bases):
+                continue
+            for bound in (sub.slice.lower, sub.slice.upper):
+                if bound is None:
+                    continue
+                k += 1
+                e = expand(fn, bound)
+                for b in ast.walk(e):
+                    if isinstance(b, ast.BinOp) and isinstance(b.op, (ast.Add, ast.Sub)) and any(isinstance(c_, ast.Call) and src(c_.func) == "len" for c_ in ast.walk(b)):
+                        clamped = any(isinstance(c_, ast.Call) and src(c_.func) == "max" and any(x is b for a in c_.args for x in ast.walk(a)) and any(isinstance(a, ast.Constant) and a.value == 0 for a in c_.args) for c_ in ast.walk(e))
+                        if not clamped:
+                            bad.append(f"{src(sub)}: bound {src(e)}")
+        n += 1
+        report.ob("C10.R7", f"{cname}.__call__: no slice bound can wrap around", not bad, facts={"bounds": k, "problems": bad[:3]}, loc=repo.loc(fn), cases=k,
+                  expected="bounds are configured numbers, indices returned by a trimming function, or length arithmetic inside max(0, ...)",
+                  why=(f"{bad[0]} is negative for a read shorter than the amount to remove (an earlier step may have shortened it): the slice then counts from the other end and keeps bases that this step removes" if bad else ""))
+    report.floor("C10.R7", "cutting steps", n, 9)
 
 
 def r5_generated_names(repo, report):
